@@ -3,11 +3,15 @@
 import os, sys, json, tempfile, shutil
 sys.path.insert(0, '/verif'); os.environ['CYLC_FLOW_VERIF'] = '1'
 from harness.sched import runner
-seed = int(sys.argv[1]); sc = sys.argv[2]
+# (or: showrun.py '<job json>' [IDX] [WIDTH])
+if sys.argv[1].lstrip().startswith('{'):
+    job = json.loads(sys.argv[1]); sys.argv.insert(2, job["scenario"])
+else:
+    job = {"seed": int(sys.argv[1]), "scenario": sys.argv[2]}
 idx = int(sys.argv[3]) if len(sys.argv) > 3 else None
 width = int(sys.argv[4]) if len(sys.argv) > 4 else 12
 scratch = tempfile.mkdtemp(prefix='show-', dir='/dev/shm')
-r = runner.one_run({"seed": seed, "scratch": scratch, "scenario": sc})
+r = runner.one_run(dict(job, scratch=scratch))
 shutil.rmtree(scratch, ignore_errors=True)
 if 'error' in r:
     print(r['error']); sys.exit(1)
